@@ -379,59 +379,65 @@ def r_strict(ctx, view):
                             rv = vp.rvalue(f, s["rv"])
                 return (not eff) and rv is not None and rv[0] == "adt" and rv[2] == "Some" and is_param(rv[3][0], 3)
 
-            # controlling switch of the comparison
-            ctrl = None
-            absent_ok, absent_why = False, "no path for the absent item found"
+            # controlling switch of the comparison: the switch (in the root body) whose discriminant depends on it
             if g is f:
-                dest = f.term(cbb)["dest"]["local"]
-                for sb in sorted(f.cfg.reach):
-                    tt = f.term(sb)
-                    if tt["k"] == "switch" and tt["discr"]["k"] in ("copy", "move") and not tt["discr"]["place"]["proj"]:
-                        d = vp.operand(f, tt["discr"])
-                        if d[0] == "call" and d[3] == (f.key, cbb):
-                            ctrl = sb
-                # absent: None edge of the lookup's discriminant leads to push
-                for sb in sorted(f.cfg.reach):
-                    tt = f.term(sb)
-                    if tt["k"] == "switch":
-                        d = strip(vp.operand(f, tt["discr"]))
-                        if d[0] == "discr" and any(x[0] == "call" and x[1].split("::")[-1] in ("get_priority", "get") for x in walk(d)):
-                            none_t = [tb for v, tb in tt["targets"] if v == 0]
-                            if not none_t and all(v == 1 for v, _ in tt["targets"]):
-                                none_t = [tt["otherwise"]]
-                            if none_t:
-                                absent_ok = leads_to_push(none_t[0])
-                                absent_why = "the None arm of the lookup %s push" % ("reaches" if absent_ok else "does not reach")
+                cmp_terms = [vp.call_term(f, cbb, f.term(cbb))]
             else:
-                # combinator form: lookup.map_or(default, |p| cmp)
-                mo = [(bb2, t2) for bb2, t2 in f.calls() if "func" in t2 and t2["func"]["key"] == "std::option::Option::map_or"]
-                if len(mo) == 1:
-                    mbb, mt = mo[0]
-                    default = mt["args"][1]
-                    dval = {"const true": True, "true": True, "const false": False, "false": False}.get(default.get("s")) if default["k"] == "const" else None
-                    for sb in sorted(f.cfg.reach):
-                        tt = f.term(sb)
-                        if tt["k"] == "switch":
-                            d = vp.operand(f, tt["discr"])
-                            if d[0] == "call" and d[3] == (f.key, mbb):
-                                ctrl = sb
-                    if ctrl is not None and dval is not None:
-                        tt = f.term(ctrl)
-                        zero = [tb for v, tb in tt["targets"] if v == 0][0]
-                        tgt = tt["otherwise"] if dval else zero
-                        absent_ok = leads_to_push(tgt)
-                        absent_why = "map_or(%s, cmp): the absent item %s push" % (str(dval).lower(), "reaches" if absent_ok else "does not reach")
+                # the comparison sits in a closure handed to a combinator: the combinator call is what the root branches on
+                cmp_terms = []
+                use = vp.closure_use(g.key)
+                if use is not None and use[0] is f:
+                    cmp_terms = [vp.call_term(f, use[1], use[2])]
+                    combinator = use[2]
+            ctrl = None
+            dterm = None
+            for sb in sorted(f.cfg.reach):
+                tt = f.term(sb)
+                if tt["k"] != "switch" or len(f.cfg.succ[sb]) < 2:
+                    continue
+                d = vp.operand(f, tt["discr"])
+                if any(contains(d, ct) for ct in cmp_terms):
+                    ctrl, dterm = sb, d
+                    break
             if ctrl is None:
                 ctx.ob("R-STRICT", key + ":one-strict-comparison", False, g.loc(ci.span), "no branch is controlled by the comparison")
                 continue
+
+            def cmp_truth(d, edge_true):
+                """truth value of the comparison on this edge of the controlling switch (None = not determined)"""
+                d = strip(d)
+                if d in cmp_terms or (d[0] == "call" and any(d[:3] == ct[:3] and d[3] == ct[3] for ct in cmp_terms)):
+                    return edge_true
+                if d[0] == "unop" and d[1] == "Not":
+                    return cmp_truth(d[2], not edge_true)
+                if d[0] in ("phi", "mu"):
+                    alts = d[4] if d[0] == "phi" else d[1]
+                    consts = [a for a in alts if strip(a)[0] == "const"]
+                    others = [a for a in alts if strip(a)[0] != "const"]
+                    cvals = {strip(a)[1].replace("const ", "") == "true" for a in consts}
+                    if edge_true in cvals:
+                        return None       # this edge can also be taken through the literal (the absent case)
+                    res = {cmp_truth(a, edge_true) for a in others}
+                    return res.pop() if len(res) == 1 else None
+                return None
+
             tt = f.term(ctrl)
             zero = [tb for v, tb in tt["targets"] if v == 0][0]
             T, F = tt["otherwise"], zero
+            tT, tF = cmp_truth(dterm, True), cmp_truth(dterm, False)
+            if g is not f:
+                # map_or(default, |p| cmp): the closure result IS the comparison; the default covers the absent item
+                default = combinator["args"][1] if combinator["func"]["key"] == "std::option::Option::map_or" else None
+                dval = None
+                if default is not None and default["k"] == "const":
+                    dval = {"const true": True, "true": True, "const false": False, "false": False}.get(default.get("s"))
+                tT = None if dval is True else True
+                tF = None if dval is False else False
             eff_op = None
-            if leads_to_push(T) and refuses(F):
-                eff_op = op
-            elif leads_to_push(F) and refuses(T):
-                eff_op = NEG[op]
+            if leads_to_push(T) and refuses(F) and tF is not None:
+                eff_op = op if tF is False else NEG[op]
+            elif leads_to_push(F) and refuses(T) and tT is not None:
+                eff_op = NEG[op] if tT is True else op
             ctx.ob("R-STRICT", key + ":branches", eff_op is not None, f.loc(),
                    "one edge of the comparison returns push(item, priority), the other is effect-free and returns Some(priority)"
                    if eff_op else "the edges of the comparison are not {push(item, priority) returned | effect-free Some(priority)}")
@@ -441,7 +447,54 @@ def r_strict(ctx, view):
             ctx.ob("R-STRICT", key + ":one-strict-comparison", ok, g.loc(ci.span),
                    "the item is pushed iff `offered %s stored` (must be strictly `%s`); offered=%s stored=%s" % (
                        SYM[eff_op], SYM[want], term_str(a)[:30], term_str(b)[:50]))
+            # the absent item is pushed: on every feasible path on which the lookup answered None, push is reached
+            absent_ok, absent_why = absent_reaches_push(view, f, push_bbs)
             ctx.ob("R-STRICT", key + ":absent-item-is-pushed", absent_ok, f.loc(), absent_why)
+
+
+def absent_reaches_push(view, f, push_bbs):
+    """typestate over feasible paths: after the None edge of the keyed lookup (or through `map_or(true, ..)`), push is reached"""
+    from .core import edge_presence
+    vp = view.vp
+    absent_targets = set()
+    for sb in sorted(f.cfg.reach):
+        tt = f.term(sb)
+        if tt["k"] != "switch":
+            continue
+        d = strip(vp.operand(f, tt["discr"]))
+        if d[0] == "discr" and any(x[0] == "call" and x[1].split("::")[-1] in ("get_priority", "get", "get_full", "get_mut") for x in walk(d)):
+            for nb in f.cfg.succ[sb]:
+                if edge_presence(d, tt, nb) == "absent":
+                    absent_targets.add(nb)
+    if absent_targets:
+        marks = {}
+        for b in absent_targets:
+            marks.setdefault(b, []).append("A")
+        for b in push_bbs:
+            marks.setdefault(b, []).append("P")
+
+        def step(st, tag, bb):
+            if tag == "A" and st == 0:
+                return 1
+            if tag == "P" and st == 1:
+                return 2
+            return st
+        bad = explore(f, marks, 0, step, lambda st: st == 1)
+        return (not bad), ("the None arm of the lookup %s push on every feasible path" % ("reaches" if not bad else "does not reach"))
+    # combinator form
+    for bb, t in f.calls():
+        if "func" in t and t["func"]["key"] == "std::option::Option::map_or":
+            default = t["args"][1]
+            if default["k"] == "const" and default.get("s") in ("const true", "true"):
+                for sb in sorted(f.cfg.reach):
+                    tt = f.term(sb)
+                    if tt["k"] == "switch":
+                        d = vp.operand(f, tt["discr"])
+                        if d[0] == "call" and d[3] == (f.key, bb):
+                            tgt = tt["otherwise"]
+                            ok = bool(push_bbs) and (tgt in push_bbs or f.cfg.escape_path_from(tgt, set(push_bbs)) is None)
+                            return ok, "map_or(true, cmp): the absent item %s push" % ("reaches" if ok else "does not reach")
+    return False, "no path for the absent item found"
 
 
 def is_offered(t, f):
@@ -733,6 +786,24 @@ def component_is_store(t):
 # ------------------------------------------------------------------------------------------
 # R-ASSIGN (C03): an update stores the offered priority unconditionally and hands back the old one
 # ------------------------------------------------------------------------------------------
+def found_entry(view, g):
+    """where the found case of a keyed lookup starts in body g: 'entry' for a continuation closure, else the target
+    block of the `present` edge of the switch on the lookup's Option / `?`"""
+    from .core import edge_presence
+    if g.is_closure:
+        return "entry"
+    for bi in sorted(g.cfg.reach):
+        tt = g.term(bi)
+        if tt["k"] != "switch":
+            continue
+        d = strip(view.vp.operand(g, tt["discr"]))
+        if d[0] == "discr" and any(x[0] == "call" and x[1].split("::")[-1] in ("get_full_mut", "get_full_mut2", "get_mut", "get_full") for x in walk(d)):
+            for nb in g.cfg.succ[bi]:
+                if edge_presence(d, tt, nb) == "present":
+                    return nb
+    return None
+
+
 def r_assign(ctx, view):
     """`change_priority` / `push` on a present item: the offered priority is written into the entry on EVERY path of the
     found branch (no user comparison decides whether to write), and the value returned is the one swapped out"""
@@ -759,15 +830,32 @@ def r_assign(ctx, view):
     why = "%d write(s) of the offered priority into the found entry" % len(writes)
     if ok:
         g, bb, a = writes[0]
-        esc = g.cfg.escape_path(0, {bb}) if bb != 0 else None
-        ok = esc is None
-        why = "the offered priority is swapped into the entry on every path of the found branch" if ok else "a path of the found branch skips the write: %s" % esc
-        # the returned priority is the swapped-out one: the closure returns the local that was the swap's other operand
-        r = ret_term(view, g)
+        start = found_entry(view, g)
+        esc = None
+        if start is None:
+            ok = False
+            why = "no found-branch located"
+        else:
+            esc = None if (bb == start or start == "entry" and bb == 0) else (g.cfg.escape_path_from(0 if start == "entry" else start, {bb}))
+            ok = esc is None
+            why = "the offered priority is written into the entry on every path of the found branch" if ok else "a path of the found branch skips the write: %s" % esc
+        # the returned old priority is the value that came out of the entry: mem::replace's result, or the swap's other operand
+        call_t = view.vp.call_term(g, bb, g.term(bb))
         other = strip(a[1]) if what_entry_part(("deref", a[0])) else strip(a[0])
-        okr = r[0] == "tuple" and strip(r[1][0]) == other or (r[0] == "call" and r[3] == (g.key, bb))
+        okr = False
+        shown = []
+        for h in fam:
+            for r in ret_alts(view, h):
+                r = strip(r)
+                if r[0] == "adt" and r[2] == "Some" and len(r[3]) == 1:
+                    r = strip(r[3][0])
+                if r[0] == "tuple" and len(r[1]) == 2:
+                    first = strip(r[1][0])
+                    shown.append(term_str(first)[:40])
+                    if first == other or (first[0] == "call" and first[1] == "std::mem::replace" and len(first) > 3 and first[3] == (g.key, bb)):
+                        okr = True
         ctx.ob("R-ASSIGN", "Store::change_priority:returns-the-swapped-out-priority", bool(okr), g.loc(),
-               "returns %s; the swap exchanged the entry with %s" % (term_str(r)[:60], term_str(other)[:40]))
+               "returns %s as the old priority; the entry was exchanged with %s" % (shown[:2], term_str(other)[:40]))
     ctx.ob("R-ASSIGN", "Store::change_priority:unconditional-write", ok, f.loc(), why)
     ctx.ob("R-ASSIGN", "Store::change_priority:no-user-comparison", not userops, f.loc(),
            "the Store-level update compares nothing" if not userops else "user comparison(s) decide the update: %s" % "; ".join(userops))
@@ -780,7 +868,11 @@ def r_assign(ctx, view):
                 a0 = strip(vp.operand(h, t["args"][0]))
                 if a0[0] == "param" and a0[1] == g.key and a0[2] == 3:
                     setter.append((h, bb))
-    ok = len(setter) == 1 and (setter[0][1] == 0 or setter[0][0].cfg.escape_path(0, {setter[0][1]}) is None) and not setter[0][0].cfg.loops
+    ok = len(setter) == 1 and not setter[0][0].cfg.loops
+    if ok:
+        h, sbb = setter[0]
+        st = found_entry(view, h)
+        ok = st is not None and (sbb == st or (st == "entry" and sbb == 0) or h.cfg.escape_path_from(0 if st == "entry" else st, {sbb}) is None)
     ctx.ob("R-ASSIGN", "Store::change_priority_by:setter-once", ok, g.loc(), "the priority setter runs exactly once on the found entry (%d call sites)" % len(setter))
     for Q in QUEUES:
         q = prog.fn(Q + "::push")
@@ -904,18 +996,52 @@ def r_readers(ctx, view):
         okc = cr[0] == "field" and cr[2] in (0, "0")
     ok = "collect" in names and "into_iter" in names and okc and any(c[1].split("::")[-1] == "into_iter" and component(c[2][0]) and component(c[2][0])[0] == "map" for c in _calls_in(r))
     ob("Store::into_vec", ok, f, "collects the items (.0) of map.into_iter()")
+    # queue level: whatever the delegation chain, the value returned is the Store-level one on `self.store`
+    from .core import deep_ret, subst_params
+    from .rules_iter import unsite
     for Q in QUEUES:
-        for name in ("len", "is_empty", "get", "get_priority", "get_mut", "iter", "into_vec"):
-            q = prog.fn("%s::%s" % (Q, name))
-            ctx.anchor("%s::%s" % (Q, name), q is not None)
-            okf, why = forwards(view, q, "store::Store::" + name, arg_params=[2] if name.startswith("get") else [], recv_field="store")
-            ob("%s::%s" % (QNAME[Q], name), okf, q, why)
-        for key, callee in (("<%s as IntoIterator>::into_iter" % Q, "<store::Store as IntoIterator>::into_iter"),
-                            ("<&%s as IntoIterator>::into_iter" % Q, "store::Store::iter")):
-            q = prog.fn(key)
-            ctx.anchor(key, q is not None)
-            okf, why = forwards(view, q, callee, arg_params=[], recv_field="store")
-            ob(short(key), okf, q, why)
+        table = [(name, "%s::%s" % (Q, name), "store::Store::" + name) for name in ("len", "is_empty", "get", "get_priority", "get_mut", "iter", "into_vec")]
+        table.append(("into_iter", "<%s as IntoIterator>::into_iter" % Q, "<store::Store as IntoIterator>::into_iter"))
+        table.append(("&into_iter", "<&%s as IntoIterator>::into_iter" % Q, "store::Store::iter"))
+        for name, qkey, skey in table:
+            q = prog.fn(qkey)
+            sfn = prog.fn(skey)
+            ctx.anchor(qkey, q is not None and sfn is not None)
+            got = unsite(strip_sites_closures(deep_ret(view, q)))
+            # expected: the Store function's own (deep) return term with self := self.store and the key forwarded
+            sargs = [("field", ("deref", ("param", q.key, 1, "self")), "store", Q)]
+            if q.locals[1]["ty"].get("k") != "ref":
+                sargs = [("field", ("param", q.key, 1, "self"), "store", Q)]
+            for i in range(2, sfn.arg_count + 1):
+                sargs.append(("param", q.key, i, sfn.locals[i]["name"]))
+            want = unsite(strip_sites_closures(subst_params(deep_ret(view, sfn), sfn.key, tuple(sargs))))
+            okf = norm_refs(got) == norm_refs(want)
+            ob("%s::%s" % (QNAME[Q], name), okf, q, "returns what Store::%s returns for self.store%s" % (
+                skey.split("::")[-1], "" if okf else " - found %s, expected %s" % (term_str(got)[:70], term_str(want)[:70])))
+
+
+def strip_sites_closures(t):
+    """closure terms carry their own key (different per enclosing function): compare them by their body's return term"""
+    if not isinstance(t, tuple) or not t:
+        return t
+    if isinstance(t[0], str) and t[0] == "closure":
+        return ("closure", "_", tuple(strip_sites_closures(x) for x in t[2]))
+    return tuple(strip_sites_closures(x) if isinstance(x, tuple) else x for x in t)
+
+
+def norm_refs(t):
+    """drop reference / dereference / parameter-name noise so that `&*self.store` and `self.store` compare equal"""
+    if not isinstance(t, tuple) or not t:
+        return t
+    if isinstance(t[0], str):
+        if t[0] in ("ref", "rawref", "deref"):
+            return norm_refs(t[1])
+        if t[0] == "param":
+            return ("param", t[2])
+        if t[0] == "field":
+            return ("field", norm_refs(t[1]), t[2])
+    return tuple(norm_refs(x) if isinstance(x, tuple) else x for x in t)
+
 
 
 def r_returns(ctx, view):
@@ -937,29 +1063,43 @@ def r_returns(ctx, view):
             ok = h[0] == "call" and h[1].split("::")[-1] == "swap_remove" and component(h[2][0]) and component(h[2][0])[0] == "heap" and \
                 strip(h[2][1])[0] == "field" and is_param(strip(h[2][1])[1], 2)
     ob("Store::swap_remove", ok, f, "returns map.swap_remove_index(heap.swap_remove(position).0): the entry that was at `position` (%s)" % term_str(r)[:70])
-    cl = prog.fn("store::Store::remove::{closure#0}")
-    ctx.anchor("Store::remove hit-closure", cl is not None)
-    r = strip(ret_term(view, cl))
-    ok = r[0] == "tuple" and len(r[1]) == 3 and _is_payload_field(r[1][0], ("swap_remove_full",), 1) and _is_payload_field(r[1][1], ("swap_remove_full",), 2)
-    if ok:
-        p = strip(r[1][2])
-        ok = p[0] == "call" and p[1].split("::")[-1] == "swap_remove" and component(p[2][0]) and component(p[2][0])[0] == "qp"
-    ob("Store::remove", ok, cl, "returns (item, priority) of the removed entry and its former heap position (%s)" % term_str(r)[:80])
-    cl = prog.fn("store::Store::change_priority::{closure#0}")
-    ctx.anchor("Store::change_priority closure", cl is not None)
-    r = strip(ret_term(view, cl))
-    ok = r[0] == "tuple" and len(r[1]) == 2
-    if ok:
-        p = strip(r[1][1])
-        ok = any(c[1].split("::")[-1] in ("get_unchecked", "index", "get") and component(c[2][0]) and component(c[2][0])[0] == "qp" and
-                 _is_payload_field(c[2][1], ("get_full_mut", "get_full_mut2"), 0) for c in _calls_in(("x", p)) + ([p] if p[0] == "call" else []))
-    ob("Store::change_priority:position", ok, cl, "second component is qp[index of the found entry] (%s)" % term_str(r)[:80])
-    cl = prog.fn("store::Store::change_priority_by::{closure#0}")
-    ctx.anchor("Store::change_priority_by closure", cl is not None)
-    r = strip(ret_term(view, cl))
-    ok = any(c[1].split("::")[-1] in ("get_unchecked", "index", "get") and component(c[2][0]) and component(c[2][0])[0] == "qp" and
-             _is_payload_field(c[2][1], ("get_full_mut", "get_full_mut2"), 0) for c in ([r] if r[0] == "call" else []) + _calls_in(("x", r)))
-    ob("Store::change_priority_by:position", ok, cl, "returns qp[index of the found entry] (%s)" % term_str(r)[:80])
+    def found_values(fkey):
+        """values produced for the found case, whatever the style: the closure's result, or the payload of a `Some(..)` result"""
+        out = []
+        root = prog.fn(fkey)
+        for g in prog.family(fkey):
+            for a in ret_alts(view, g):
+                a = strip(a)
+                if a[0] == "adt" and a[2] == "Some" and len(a[3]) == 1:
+                    out.append((g, strip(a[3][0])))
+                elif g.is_closure and not (a[0] == "adt" and a[2] == "None"):
+                    out.append((g, a))
+        return root, out
+
+    def is_qp_at_found(p):
+        cs = ([p] if p[0] == "call" else []) + _calls_in(("x", p))
+        return any(c[1].split("::")[-1] in ("get_unchecked", "index", "get") and c[2] and component(c[2][0]) and component(c[2][0])[0] == "qp" and
+                   _is_payload_field(c[2][1], ("get_full_mut", "get_full_mut2"), 0) for c in cs)
+
+    root, vals = found_values("store::Store::remove")
+    ctx.anchor("Store::remove", root is not None)
+    ok = False
+    shown = "-"
+    for g, r in vals:
+        if r[0] == "tuple" and len(r[1]) == 3:
+            shown = term_str(r)[:80]
+            p = strip(r[1][2])
+            ok = _is_payload_field(r[1][0], ("swap_remove_full",), 1) and _is_payload_field(r[1][1], ("swap_remove_full",), 2) and \
+                p[0] == "call" and p[1].split("::")[-1] == "swap_remove" and component(p[2][0]) and component(p[2][0])[0] == "qp"
+    ob("Store::remove", ok, root, "returns (item, priority) of the removed entry and its former heap position (%s)" % shown)
+    root, vals = found_values("store::Store::change_priority")
+    ctx.anchor("Store::change_priority", root is not None)
+    ok = any(r[0] == "tuple" and len(r[1]) == 2 and is_qp_at_found(strip(r[1][1])) for g, r in vals)
+    ob("Store::change_priority:position", ok, root, "second component is qp[index of the found entry] (%s)" % [term_str(r)[:60] for g, r in vals][:2])
+    root, vals = found_values("store::Store::change_priority_by")
+    ctx.anchor("Store::change_priority_by", root is not None)
+    ok = any(is_qp_at_found(r) for g, r in vals)
+    ob("Store::change_priority_by:position", ok, root, "returns qp[index of the found entry] (%s)" % [term_str(r)[:60] for g, r in vals][:2])
     for Q in QUEUES:
         pops = ("pop", "pop_if") if Q == PQ else ("pop_min", "pop_max", "pop_min_if", "pop_max_if")
         for name in pops:
@@ -989,7 +1129,7 @@ def r_returns(ctx, view):
         else:
             q = prog.fn("%s::remove" % Q)
             alts = [strip(a) for a in ret_alts(view, q)]
-            ok = all((a[0] == "adt" and a[2] in ("None", "Some")) for a in alts) and any(
+            ok = all((a[0] == "adt" and a[2] in ("None", "Some")) or (a[0] == "call" and a[1].split("::")[-1] == "from_residual") for a in alts) and any(
                 a[0] == "adt" and a[2] == "Some" and any(_is_payload_field(x, ("remove",), 0) for x in walk(a)) for a in alts)
             ob("%s::remove" % QNAME[Q], ok, q, "returns (item, priority) of Store::remove's result")
         cl = prog.fn("%s::change_priority::{closure#0}" % Q)
@@ -1015,13 +1155,20 @@ def r_returns(ctx, view):
         alts = [strip(a) for a in ret_alts(view, q)]
         bad = []
         some = 0
+        swaps_offered = any("func" in t and t["func"]["key"] == "std::mem::swap" and what_entry_part(("deref", vp.operand(q, t["args"][0]))) == "priority"
+                            for bb, t in q.calls())
         for a in alts:
             if a[0] == "adt" and a[2] == "None":
                 continue
             if a[0] == "adt" and a[2] == "Some":
                 x = strip(a[3][0])
-                if x[0] == "call" and x[1] in ("std::mem::replace",) and what_entry_part(("deref", x[2][0])) == "priority" and is_param(x[2][1], 3):
+                # the value swapped / replaced out of the entry (possibly carried through a tuple or an Option first)
+                cands = [x] + [y for y in walk(x)]
+                if any(y[0] == "call" and y[1] == "std::mem::replace" and what_entry_part(("deref", y[2][0])) == "priority" and is_param(y[2][1], 3) for y in cands):
                     some += 1
+                    continue
+                if swaps_offered and is_param(x, 3):
+                    some += 1   # mem::swap(entry, &mut priority): `priority` now holds the old value
                     continue
             bad.append(term_str(a)[:60])
         ob("%s::push" % QNAME[Q], not bad and some >= 1, q, "returns None or Some(the priority replaced in the entry) (%s)" % (bad or "ok"))
